@@ -291,7 +291,7 @@ func randomBehaviours(seed int64, n, ops int) [][]cli.Step {
 				st = cli.Step{Action: "PutStore", Args: []interface{}{id, addrs[rng.Intn(3)], fail}}
 			case r < 32:
 				st = cli.Step{Action: "PlacePeer", Args: []interface{}{id}}
-			case r < 37:
+			case r < 34:
 				st = cli.Step{Action: "DropPeer", Args: []interface{}{id}}
 			case r < 40:
 				st = cli.Step{Action: "MovePeer", Args: []interface{}{id, float64(1 + rng.Intn(4))}}
